@@ -19,7 +19,7 @@ func init() {
 	core.Register(&core.Check{
 		ID:    "C14",
 		Level: "model_checking",
-		Rule: "for each of 12 body shapes (a yielded expression that would raise / would consume a shared source on the stop step; guarded yield then recur; recur then guarded yield; two yields; no recur; keyword arguments; body reading a reassigned outer variable; unguarded infinite; nil first yield; no declared parameters with \\ resp. \\1) the complete history tree of depth <=5 (thorough 6) over the operations " +
+		Rule: "for each of 13 body shapes (an int-valued guard; a yielded expression that would raise / would consume a shared source on the stop step; guarded yield then recur; recur then guarded yield; two yields; no recur; keyword arguments; body reading a reassigned outer variable; unguarded infinite; nil first yield; no declared parameters with \\ resp. \\1) the complete history tree of depth <=5 (thorough 6) over the operations " +
 			"{iK := gen.new(0|2), iK := iJ.new(1), iK := iJ (alias), iJ.next, iJ.A, iJ@{..}, iJ$(0)+ (thorough), lim := 1|5} on <=3 iterator variables; states = model states reached, transitions = operations; " +
 			"freshness (no model): for 7 literals incl. ones that keep progress in body-local assignments or threaded keyword arguments, every history of <=3 (thorough 4) operations over 9 (next, A, chains, _iter copy, new, advancing the literal itself) followed by b := a.new(args) and c := gen.new(args): both must yield exactly what a first iterator yielded; " +
 			"every path is one program on the real interpreter and every observation along it (value / StopIterErr / collected list) is compared with the model; A and chains are generated only where the model proves the iteration finite; " +
@@ -54,6 +54,8 @@ var shapes = []shape{
 	// the guard protects the yielded expression: on the stop step it would raise / would consume a shared source
 	{Name: "value-raises-at-stop", Gen: "gen := <{|i| yield 12 // (3 - i) if i < 3; recur(i + 1)}>"},
 	{Name: "value-consumes-shared-source", Gen: "src := <{|k| yield k; recur(k + 1)}>.new(100)\ngen := <{|i| yield src.next if i < 3; recur(i + 1)}>"},
+	// the guard is an int (truthy when non-zero, also when negative)
+	{Name: "int-guard", Gen: "gen := <{|i| yield i if i - 3; recur(i + 1)}>"},
 	{Name: "nil-first-yield", Gen: "gen := <{|i| yield [nil, i][i % 2] if i < 4; yield 99; recur(i + 1); 77}>"},
 }
 
@@ -99,7 +101,7 @@ func (s *mstate) clone() *mstate {
 // next returns (value, stopped) and advances it.
 func (s *mstate) next(it *mit) (int, bool) {
 	switch shapes[s.shape].Name {
-	case "yield-then-recur", "two-yields", "implicit-args", "implicit-numbered-args":
+	case "yield-then-recur", "two-yields", "implicit-args", "implicit-numbered-args", "int-guard":
 		if it.i < 3 {
 			v := it.i
 			it.i++
